@@ -90,7 +90,7 @@ pub fn check_rename(l0: &Lib, ext: &str, from: &str, site: &LinkOcc, new_name: &
             }
             // words of a piped/regular link text that was blanked are handled below
             let lost: Vec<&String> = c0.iter().filter(|w| !c1.contains(w)).collect();
-            let blanked_words: Vec<String> = r0.links.iter().filter(|l| !l.block_level && !md::is_external(&l.dest) && target_of(l, &d0) == old).flat_map(|l| l.text.split_whitespace().map(|s| s.to_string()).collect::<Vec<_>>()).collect();
+            let blanked_words: Vec<String> = r0.links.iter().filter(|l| !l.block_level && !md::is_external(&l.dest) && target_of(l, &d0) == old).flat_map(|l| l.text.replace(md::MARKUP, "").split_whitespace().map(|s| s.to_string()).collect::<Vec<_>>()).collect();
             if c0 != c1 && !(D16_OPEN.load(Ordering::Relaxed) && lost.iter().all(|w| blanked_words.contains(w)) && c1.iter().all(|w| c0.contains(w))) {
                 return Outcome::Bad(format!("note {:?}: content changed: before {:?} after {:?}", k, cut(&c0.join(" ")), cut(&c1.join(" "))));
             }
@@ -169,7 +169,11 @@ pub fn run(ctx: &Ctx, model: &mut Model, rep: &mut Report) {
     let n = if ctx.thorough { 1200 } else { 240 };
     for i in 0..n {
         let mut r = Rng::for_case(ctx.seed ^ 0xC08, i as u64);
-        let lib = c05::gen_library(&mut r, false);
+        // every other library may hold links to notes inside block quotes: rename rewrites them like any other link
+        let lib = c05::gen_library_opts(&mut r, false, i % 2 == 1);
+        if i % 2 == 1 {
+            rep.count("libraries_with_quoted_links_allowed");
+        }
         let ext = if i % 3 == 0 { ".md" } else { "" };
         let Some(l0) = act::formatted(&lib, ext) else { continue };
         let mut sites = vec![];
